@@ -1,35 +1,150 @@
-"""C13 cases: TryFrom / BTryFrom / From conversions, digit array access."""
+"""C13 cases: TryFrom / BTryFrom / From conversions, digit array access.
+
+Request forms (see lean/Bnum/Drive/C13.lean):
+  try <src> <dst> <hex>        plain form (TryFrom / BTryFrom / From)
+  try <src> <dst> <hex> tf     the `TryFrom` form of a `From` conversion (core's blanket impl)
+  from_digit / from_digits / from_array / digits / into_array <cfg> ...
+
+Type vocabulary: the shared 40-type cast grid of C09 (<= 192 bits) for every ordered pair, plus the WIDE
+vocabulary of harness/src/bin/c13.rs (every digit type at 8192 bits, odd digit counts, 1024 bits, two
+single-digit types) with a few well-chosen cases per ordered pair (the Lean model needs 5-20 ms per
+8192-bit case, so volume goes to the narrow grid and structure to the wide one).
+"""
 from .common import *
 from .c09 import GRID, PRIMS, bn_types, type_bits
 
+# must match `for_wtype!` in harness/src/bin/c13.rs
+WIDE = ["8x1024", "16x512", "32x256", "64x128", "64x127", "16x33", "64x16", "8x1", "64x1"]
+WIDE_NARROW = {"8x1", "64x1"}            # already in the grid: only paired with genuinely wide types here
+# digit-array access on wide instantiations (present in `for_config!`)
+WIDE_DIGIT_CFGS = ["64x128", "8x1024", "16x512", "32x256", "64x64", "8x64", "64x16"]
 
-def boundary_value(rng, sname, dname):
-    """MAX_dst, MAX_dst+1, MIN_dst, MIN_dst-1 embedded in the source, plus structured values"""
+
+def limits(sname, dname):
     sb, ssigned, sw = type_bits(sname)
     db, dsigned, dw = type_bits(dname)
     dmax = (1 << (db - 1)) - 1 if dsigned else (1 << db) - 1
     dmin = -(1 << (db - 1)) if dsigned else 0
     smax = (1 << (sb - 1)) - 1 if ssigned else (1 << sb) - 1
     smin = -(1 << (sb - 1)) if ssigned else 0
-    c = rng.randrange(10)
+    return sb, ssigned, sw, db, dsigned, dw, dmin, dmax, smin, smax
+
+
+def target_value(rng, dmin, dmax):
+    """a number representable in the target, biased to its edges"""
+    return rng.choice([dmax, dmin, dmax - 1, dmin + 1, 0, 1, -1 if dmin < 0 else 2,
+                       rng.randrange(dmin, dmax + 1), rng.randrange(dmin, dmax + 1)])
+
+
+def upper_probe(rng, sname, dname):
+    """The low part of the source is a valid target value, sign-extended through the whole source PATTERN
+    (also for unsigned sources: the low digit then passes every `digit as T as Digit == digit` round trip);
+    then nothing / one bit / one whole source digit above the target's width is disturbed.  Finds checks that
+    stop looking before the last digit, look at the wrong digit, or trust the low digit."""
+    sb, ssigned, sw, db, dsigned, dw, dmin, dmax, smin, smax = limits(sname, dname)
+    w = sw or 8
+    z = pat(target_value(rng, dmin, dmax), sb)
+    lo = min(db, sb - 1)                 # first bit position that is "above" the target (or the source's top bit)
+    c = rng.randrange(8)
+    if c == 0:
+        return "upper-probe", z
     if c < 5:
+        nd = sb // w
+        j0 = min(lo // w, nd - 1)
+        j = rng.choice([j0, nd - 1, nd - 1, rng.randrange(j0, nd), min(j0 + 1, nd - 1)])
+        p = rng.choice([max(lo, w * j), w * j + w - 1, rng.randrange(max(lo, w * j), max(lo, w * j + w - 1) + 1),
+                        lo, sb - 1, sb - 2 if sb - 2 >= lo else sb - 1, max(lo - 1, 0)])
+        p = min(p, sb - 1)
+        return "upper-probe", z ^ (1 << p)
+    # one whole digit of the source above the target width replaced
+    nd = sb // w
+    j0 = min((lo + w - 1) // w, nd - 1)
+    j = rng.choice([j0, nd - 1, rng.randrange(j0, nd)])
+    d = rng.choice([0, 1, (1 << w) - 1, 1 << (w - 1), (1 << (w - 1)) - 1, rng.randrange(1 << w)])
+    z = (z & ~(((1 << w) - 1) << (w * j))) | (d << (w * j))
+    return "upper-digit-probe", z & ((1 << sb) - 1)
+
+
+def bitlen_probe(rng, sname, dname):
+    """magnitude with a bit length exactly at / next to the target's capacity, arbitrary low bits (the
+    leading_zeros / leading_ones comparisons of BTryFrom, the `out < 0` test of the primitive targets)"""
+    sb, ssigned, sw, db, dsigned, dw, dmin, dmax, smin, smax = limits(sname, dname)
+    cap = db - 1 if dsigned else db
+    L = rng.choice([cap - 1, cap, cap, cap + 1, cap + 1, cap + 2, sb - 1, sb])
+    L = max(1, min(L, sb))
+    low = rng.choice([0, (1 << (L - 1)) - 1, rng.randrange(1 << (L - 1)), rng.randrange(1 << (L - 1)), 1 % (1 << (L - 1)) if L > 1 else 0])
+    z = (1 << (L - 1)) + low
+    if ssigned and rng.random() < 0.5:
+        z = -z + rng.choice([0, 0, 1, -1])
+    z = max(smin, min(smax, z))
+    return "bitlen-probe", pat(z, sb)
+
+
+def prim_digit_pattern(rng, sname, dname):
+    """primitive source assembled from chunks of the TARGET's digit size drawn from the extreme digit values
+    (zero digits inside negative numbers, all-ones digits inside positive ones: guarded / unguarded stores and
+    the sign fill of the primitive -> bnum loops)"""
+    sb, ssigned, sw, db, dsigned, dw, dmin, dmax, smin, smax = limits(sname, dname)
+    cw = min(dw or 8, sb)
+    v = 0
+    for i in range(sb // cw):
+        v |= digit_value(rng, cw) << (cw * i)
+    if rng.random() < 0.5:
+        v |= 1 << (sb - 1)              # force the sign bit / top bit
+    return "prim-digit-pattern", v
+
+
+def boundary_value(rng, sname, dname):
+    """MAX_dst, MAX_dst+1, MIN_dst, MIN_dst-1 embedded in the source, plus structured values"""
+    sb, ssigned, sw, db, dsigned, dw, dmin, dmax, smin, smax = limits(sname, dname)
+    c = rng.randrange(20)
+    if c < 7:
         z = rng.choice([dmax, dmax + 1, dmin, dmin - 1, dmax - 1, dmin + 1, 0, -1, 1])
         z = max(smin, min(smax, z))
         return "boundary", pat(z, sb)
-    if c < 7 and sw and sb > sw:
+    if c < 9 and sw and sb > sw:
         # low digit = a valid (sign-extended) target value, upper digits say otherwise
         low = pat(rng.choice([dmax, dmin, -1, 0, 1, rng.randrange(dmin, dmax + 1)]), sw)
         hi = rng.choice([0, (1 << (sb - sw)) - 1, 1, rng.randrange(1 << (sb - sw))])
         return "low-digit-decoy", (hi << sw) | low
+    if c < 13:
+        return upper_probe(rng, sname, dname)
+    if c < 16:
+        return bitlen_probe(rng, sname, dname)
+    if c < 18 and sw is None:
+        return prim_digit_pattern(rng, sname, dname)
     w = sw or 8
     t, v = value(rng, w, sb // w)
     return t, v
 
 
+def limit_values(sname, dname):
+    """the four representability limits of the target, as source patterns (those the source can hold)"""
+    sb, ssigned, sw, db, dsigned, dw, dmin, dmax, smin, smax = limits(sname, dname)
+    out = []
+    for z in (dmax, dmax + 1, dmin, dmin - 1):
+        if smin <= z <= smax:
+            out.append(pat(z, sb))
+    # the source's own limits (what the out-of-range ones clamp to)
+    out += [pat(smax, sb), pat(smin, sb)]
+    return out
+
+
+def blanket(s, d):
+    """is `D: From<S>` (so `TryFrom<S> for D` is core's blanket impl)?  S a primitive, D a bnum type"""
+    return not (s[0] == "i" and d[0] == "u")
+
+
+def char_values(rng):
+    return [0, 0x41, 0x7f, 0x80, 0xff, 0x100, 0x7ff, 0x800, 0xd7ff, 0xe000, 0xffff, 0x10000, 0x10ffff,
+            rng.randrange(0xd800), rng.randrange(0xe000, 0x110000), rng.randrange(0x10000, 0x110000)]
+
+
 def gen(rng, tier):
     bn = [t[0] for t in bn_types()]
     prims = list(PRIMS)
-    reps = 12 if tier == "thorough" else 10
+    thorough = tier == "thorough"
+    reps = 12 if thorough else 10
     pairs = []
     # bnum -> prim (TryFrom), bnum -> bnum (BTryFrom), prim -> bnum at least as wide (From/TryFrom)
     for s in bn:
@@ -42,28 +157,93 @@ def gen(rng, tier):
             if type_bits(d)[0] >= PRIMS[s]:
                 pairs.append((s, d))
     for s, d in pairs:
+        seen = set()
         for _ in range(reps):
             t, v = boundary_value(rng, s, d)
+            seen.add(v)
             yield f"try {s} {d} {hx(v)}", t
         sb, ssigned, _ = type_bits(s)
         db, _, _ = type_bits(d)
         ks = sorted(set(k for k in (8, 16, 32, 64, 128, sb, db, sb - 1, db - 1) if 0 < k <= sb))
         for k in ks:
             for z in ((1 << k) - 1, 1 << (k - 1)):
+                seen.add(pat(z, sb))
                 yield f"try {s} {d} {hx(pat(z, sb))}", "pair-boundary"
                 if ssigned:
+                    seen.add(pat(-z, sb))
                     yield f"try {s} {d} {hx(pat(-z, sb))}", "pair-boundary"
+        # every representability limit of the target for EVERY ordered pair (not left to chance)
+        for v in limit_values(s, d):
+            if v not in seen:
+                seen.add(v)
+                yield f"try {s} {d} {hx(v)}", "limit"
+        dsigned = d[0] == "i"
+        if dsigned and not ssigned and sb > db:
+            # unsigned source holding the sign-extended PATTERN of a negative target value (single-digit sources
+            # included): passes every `digit as T as Digit == digit` round trip, must still be Err
+            for z in (-(1 << (db - 1)), rng.randrange(-(1 << (db - 1)), 0)):
+                if pat(z, sb) not in seen:
+                    seen.add(pat(z, sb))
+                    yield f"try {s} {d} {hx(pat(z, sb))}", "neg-decoy"
+        if s in PRIMS and blanket(s, d):
+            # the `TryFrom` form of the `From` conversions
+            for _ in range(3 if thorough else 2):
+                t, v = boundary_value(rng, s, d)
+                yield f"try {s} {d} {hx(v)} tf", "tf-" + t
+            yield f"try {s} {d} {hx(pat(-1, sb))} tf", "tf-allones"
     for d in bn:
         yield f"try bool {d} 0", "bool"
         yield f"try bool {d} 1", "bool"
+        yield f"try bool {d} 0 tf", "tf-bool"
+        yield f"try bool {d} 1 tf", "tf-bool"
         if d[0] == "u" and type_bits(d)[0] >= 32:
-            for c in (0, 0x41, 0xff, 0xd7ff, 0xe000, 0x10ffff):
+            for i, c in enumerate(char_values(rng)):
                 yield f"try char {d} {hx(c)}", "char"
-    for cfg in cfgs(tier):
-        w, n = wn(cfg)
-        if n > 40:
+                if i % 3 == 0:
+                    yield f"try char {d} {hx(c)} tf", "tf-char"
+
+    # ---------------------------------------------------------------- wide vocabulary (up to 8192 bits)
+    wide = [s + c for c in WIDE for s in "ui"]
+    wreps = 5 if thorough else 1
+
+    def wide_cases(s, d, n_lim, n_probe, n_val):
+        lv = limit_values(s, d)
+        for v in rng.sample(lv, min(n_lim, len(lv))):
+            yield f"try {s} {d} {hx(v)}", "wide-limit"
+        for _ in range(n_probe):
+            t, v = (upper_probe if rng.random() < 0.6 else bitlen_probe)(rng, s, d)
+            yield f"try {s} {d} {hx(v)}", "wide-" + t
+        for _ in range(n_val):
+            t, v = boundary_value(rng, s, d)
+            yield f"try {s} {d} {hx(v)}", "wide-" + t
+
+    for s in wide:
+        for d in wide:
+            if s[1:] in WIDE_NARROW and d[1:] in WIDE_NARROW:
+                continue
+            yield from wide_cases(s, d, 2 * wreps, 2 * wreps, 1 * wreps)
+    for s in wide:
+        if s[1:] in WIDE_NARROW:
             continue
-        for _ in range(reps):
+        for p in prims:
+            # wide -> primitive: assemble loop + "all remaining digits are padding" over up to 1023 digits
+            yield from wide_cases(s, p, 2 * wreps, 3 * wreps, 1 * wreps)
+            # primitive -> wide (always at least as wide)
+            yield from wide_cases(p, s, 1 * wreps, 0, 2 * wreps)
+            if blanket(p, s):
+                t, v = boundary_value(rng, p, s)
+                yield f"try {p} {s} {hx(v)} tf", "wide-tf-" + t
+        yield f"try bool {s} 1", "wide-bool"
+        yield f"try bool {s} {rng.randrange(2)} tf", "wide-tf-bool"
+        if s[0] == "u":
+            for c in rng.sample(char_values(rng), 3):
+                yield f"try char {s} {hx(c)}", "wide-char"
+            yield f"try char {s} {hx(rng.randrange(0xe000, 0x110000))} tf", "wide-tf-char"
+
+    # ---------------------------------------------------------------- digit-array access
+    def digit_cases(cfg, k):
+        w, n = wn(cfg)
+        for _ in range(k):
             t, v = value(rng, w, n)
             ds = ",".join(hx((v >> (w * i)) & ((1 << w) - 1)) for i in range(n))
             yield f"from_digits u{cfg} {ds}", t
@@ -71,3 +251,14 @@ def gen(rng, tier):
             yield f"digits u{cfg} {hx(v)}", t
             yield f"into_array u{cfg} {hx(v)}", t
             yield f"from_digit u{cfg} {hx(digit_value(rng, w))}", "digit"
+
+    done = set()
+    for cfg in cfgs(tier):
+        w, n = wn(cfg)
+        if n > 40:
+            continue
+        done.add(cfg)
+        yield from digit_cases(cfg, reps)
+    for cfg in WIDE_DIGIT_CFGS:
+        if cfg not in done:
+            yield from digit_cases(cfg, 4 if thorough else 2)
